@@ -45,13 +45,20 @@ try:
             continue
         if props_filter and not set(m["breaks"]) & set(props_filter):
             continue
-        path = os.path.join(REPO, m["file"])
-        src = open(path).read()
-        if src.count(m["old"]) != 1:
-            print("MUTANT %s: pattern occurs %d times, skipped" % (m["id"], src.count(m["old"])))
+        edits = m.get("edits") or [{"file": m["file"], "old": m["old"], "new": m["new"]}]
+        bad = False
+        for e in edits:
+            path = os.path.join(REPO, e["file"])
+            src = open(path).read()
+            if src.count(e["old"]) != 1:
+                print("MUTANT %s: pattern occurs %d times, skipped" % (m["id"], src.count(e["old"])))
+                bad = True
+                break
+            open(path, "w").write(src.replace(e["old"], e["new"]))
+        if bad:
+            clean()
             results.append({"id": m["id"], "status": "pattern-mismatch"})
             continue
-        open(path, "w").write(src.replace(m["old"], m["new"]))
         row = {"id": m["id"], "breaks": m["breaks"], "fired": {}, "others_fired": {}}
         try:
             for p in m["breaks"]:
